@@ -12,6 +12,7 @@
 #include <stdio.h>
 #include <stdlib.h>
 #include <string.h>
+#include <stdint.h>
 
 #include "fileio/read_hex.h"
 
@@ -51,7 +52,7 @@ int read_hex(const char *filename, Memory *memory)
   int n;
   int start_address = 0;
   int line = 0;
-  int start, end;
+  int64_t start, end;
   int segment = 0;
 
   memory->clear();
@@ -96,15 +97,20 @@ int read_hex(const char *filename, Memory *memory)
       case 0x00:
         address += segment;
 
-        if (start == -1)
         {
-          start = address;
-          end = address + byte_count - 1;
-        }
-          else
-        {
-          if (address < start) start = address;
-          if (address + byte_count > end) end = address + byte_count - 1;
+          // Addresses are unsigned 32 bit.
+          const int64_t a = (uint32_t)address;
+
+          if (start == -1)
+          {
+            start = a;
+            end = a + byte_count - 1;
+          }
+            else
+          {
+            if (a < start) start = a;
+            if (a + byte_count > end) end = a + byte_count - 1;
+          }
         }
 
         for (n = 0; n < byte_count; n++)
